@@ -107,13 +107,19 @@ def check_mixed_blocks(run, name, umat, F, p, J, sv):
               "pJ": (H[4], lambda h: (g(F, p, J + h)[1] - g(F, p, J - h)[1]) / (2 * h), sA),
               "JJ": (H[5], lambda h: (g(F, p, J + h)[2] - g(F, p, J - h)[2]) / (2 * h), sA)}
     for bn, (blk, fd, scale) in blocks.items():
-        analytic = np.zeros(fd(H1).shape) if blk is None else np.asarray(blk, float)
+        fshape = fd(H1).shape
+        analytic = np.zeros(fshape) if blk is None else np.asarray(blk, float)
+        if analytic.shape != fshape and analytic.size == int(np.prod(fshape)):
+            analytic = analytic.reshape(fshape)  # explicit unit axes of the scalar fields (p, J handed over as (1, q, c))
         judge_fd(run, mon, "model=%s clause=mixed-block-%s" % (name, bn),
                  "%s: block d2W/d%s differs from the differentiated gradient" % (name, bn), analytic, fd, scale,
                  name + ":block-" + bn, config=name + " " + bn)
     # symmetry of the mixed second derivatives: dP/dp == d(dW/dp)/dF etc.
     up_T = fd_wrt_F(lambda G: g(G, p, J)[1], F, H2)
-    run.compare(mon, "model=%s clause=mixed-block-pu" % name, maxabs(up_T - np.asarray(H[1], float)) / sA, FD_TOL,
+    H1a = np.asarray(H[1], float)
+    if H1a.shape != up_T.shape and H1a.size == up_T.size:
+        up_T = up_T.reshape(H1a.shape)
+    run.compare(mon, "model=%s clause=mixed-block-pu" % name, maxabs(up_T - H1a) / sA, FD_TOL,
                 "%s: d(dW/dp)/dF differs from the up block" % name, unit=name + ":block-pu")
 
 
